@@ -19,8 +19,8 @@ type state struct {
 }
 
 func (s state) uriStr() string {
-	if u := s.uris[len(s.uris)-1]; u != s.q.path {
-		return paths[u]
+	if u := s.uris[len(s.uris)-1]; u != requestLineOf(s.q.path) {
+		return pathStr(u)
 	}
 	return ""
 }
@@ -201,7 +201,7 @@ type specRun struct {
 func (x *specRun) tag(t string) { x.tags[t] = true }
 
 func (x *specRun) record(id int) {
-	x.events = append(x.events, event{id: id, path: paths[x.s.q.path], uri: x.s.uriStr(), err: x.s.errStr(), repl: x.s.replStr()})
+	x.events = append(x.events, event{id: id, path: pathStr(x.s.q.path), uri: x.s.uriStr(), err: x.s.errStr(), repl: x.s.replStr()})
 }
 
 func (x *specRun) handlers(hs []*handler) *stop {
@@ -222,6 +222,10 @@ func (x *specRun) handlers(hs []*handler) *stop {
 			x.record(h.id)
 			x.tag("handler-error")
 			return &stop{true, h.arg}
+		case 'z':
+			x.tag("real-rewrite:strip-prefix")
+			x.s.q.path = stripPath(x.s.q.path)
+			x.s.uris[len(x.s.uris)-1] = requestLineOf(x.s.q.path)
 		case 'i': // a name that is not among the server's named routes (defined ones are inlined)
 			x.tag("invoke:unknown-name")
 			return &stop{true, 0}
@@ -244,7 +248,7 @@ func (x *specRun) handlers(hs []*handler) *stop {
 			st := x.routes(h.routes)
 			if st != nil && st.isErr && h.hasErrs {
 				x.tag("subroute-errors-run")
-				if x.s.uris[own] != x.s.q.path {
+				if x.s.uris[own] != requestLineOf(x.s.q.path) {
 					x.tag("subroute-errors:stale-request-uri")
 				}
 				x.s.uris = append(x.s.uris, x.s.uris[own]) // WithError copies ITS request object
